@@ -293,6 +293,10 @@ def build_cases(ctx, data, defaults, tops, pfx):
             if f["cls"] == "enum" and enum_names(data, f["type"]):
                 t = base_tree(); t.force(p).data = r.choice(["up", "LEFT", "none", "rigth"])
                 add(inst, sch, t, {}, [], expect_exc="invalid_argument", note="invalid enum " + ".".join(p))
+                # a key that is present with an EMPTY value (`-p solver.type=`, "type": ""): the extraction of the word fails, which
+                # ptree::get(key, default) would silently turn into the default unless operator>> raises (seeded C14-6)
+                t = base_tree(); t.force(p).data = ""
+                add(inst, sch, t, {}, [], expect_exc="invalid_argument", note="empty enum " + ".".join(p))
     return lines, meta
 
 
@@ -697,6 +701,7 @@ def rtstatic(ctx, cases_override=None):
             if cls == "relaxation": slots += [("precond", "type")]
             for sl in slots:
                 add(key, rt_tree(r, key, bad=(sl, r.choice(["cgs", "amgx", "jacobi", "AMG", "Smoothed_Aggregation"]))), "badenum")
+                add(key, rt_tree(r, key, bad=(sl, "")), "badenum")        # present but empty value
         # (a dropped import leaves a member uninitialised: sweep counts of 2^31 must not stall the check)
         if cases_override is not None:
             # replay: only the stored lines of this part (ids start with the part letter), same expectations
